@@ -53,7 +53,21 @@ def _run_own(ctx, chk):
         want = [tuple(r) for r in ent["rows"]]
         # ---- encoder
         try:
-            erows = [layout.descriptor(r) for r in layout.extract_encode(enc_b)]
+            raw_rows = layout.extract_encode(enc_b)
+            erows = [layout.descriptor(r) for r in raw_rows]
+            # a fixed-width BCD field of N bytes carries 2N decimal digits: the integer type of the field must hold them all
+            # (the 6-byte amount is 12 digits - a u32 refuses everything from 2^32 cents on)
+            for r_ in raw_rows:
+                L_, E_ = ty_str(r_["L"]), ty_str(r_["E"])
+                if E_ == "zvt_builder::encoding::Bcd" and L_.startswith("zvt_builder::length::Fixed<"):
+                    nbytes = int(L_.split("<")[1].rstrip(">"))
+                    _, inner = layout.unwrap_card(r_["ty"])
+                    it = ty_str(inner)
+                    cap = {"u8": 2, "u16": 4, "u32": 9, "u64": 19, "usize": 19}.get(it)
+                    chk.require(cap is not None and cap >= 2 * nbytes, "C03-a/bcd-width", "%s.%s" % (sname, r_["field"]),
+                                "a %d-byte BCD field (%d digits) is held in %s, which cannot represent all of them: conformant values "
+                                "are refused" % (nbytes, 2 * nbytes, it), "%d digits fit %s" % (2 * nbytes, it), site_of(enc_b),
+                                nontrivial=cap is not None)
         except layout.ShapeError as e:
             chk.fail("C03-a/encoder-shape", sname, "encoder not analysable: %s" % e.msg, site_of(enc_b))
             erows = None
@@ -441,6 +455,10 @@ def run(ctx, chk):
     chk.floor("text code page obligations (shared with C17-e)", sub_t.count, 1)
     sub = Sub(chk, "C03-c", lambda r: r.startswith("C16-b/"), instance_filter=lambda i: "Adpu" in str(i))
     rules_c16.run(ctx, sub)
+    # the LLVAR / LLLVAR prefixes of the rows above: N decimal digits as F0|digit, most significant first, no truncating cast
+    sub_l = Sub(chk, "C03-a", lambda r: r.startswith(("C16-d/", "C16-f/")))
+    rules_c16.run(ctx, sub_l)
+    chk.floor("LLVAR prefix obligations (shared with C16-d/f)", sub_l.count, 4)
     sub2 = Sub(chk, "C03-c", lambda r: r in ("C04-d/writer-header", "C04-d/reader-header", "C04-d/adpu", "C04-d/marker-constant"))
     rules_c04.run(ctx, sub2)
     chk.floor("APDU length-field obligations (shared with C16/C04)", sub.count + sub2.count, 5)
